@@ -1241,6 +1241,18 @@ class Executor:
                'Gt': lambda: A > B, 'Ge': lambda: A >= B}
         if op in cmp:
             return lift(z3.simplify(cmp[op]()))
+        if op in ('Shr', 'Shl') and isinstance(b, CI) and 0 <= b.v < w:
+            # shifts by a constant in exact integer mode: >> k is floor division by 2^k (arithmetic shift for signed,
+            # logical for unsigned: the value is non-negative there), << k is multiplication followed by the wrap
+            k = 1 << b.v
+            if op == 'Shr':
+                return A / z3.IntVal(k)          # z3 integer division rounds towards minus infinity for a positive divisor
+            return self.zint_wrap(A * z3.IntVal(k), w, signed)
+        if op in ('Div', 'Rem') and isinstance(b, CI) and b.v != 0 and not (signed and b.signed() < 0):
+            d = z3.IntVal(b.v)
+            # Rust's / and % truncate towards zero
+            q = z3.If(A >= 0, A / d, -((-A) / d))
+            return q if op == 'Div' else A - q * d
         raise Unsupported('integer-mode binop %s' % op)
 
     @staticmethod
